@@ -595,6 +595,12 @@ func unguardedAccesses(p *Program, fn *ssa.Function) (sites int, hits []Finding)
 				} else {
 					continue
 				}
+				// s[a:][:n] is s[a:a+n]: the bound to justify is a+n against len(s)
+				if inner, ok := x.X.(*ssa.Slice); ok && x.Low == nil && x.High != nil && inner.Low != nil && inner.High == nil && inner.Max == nil && isSliceType(inner.X.Type()) {
+					if provesSumLE(fn, b, get(), inner.Low, x.High, inner.X) {
+						continue
+					}
+				}
 				if !provesLE(fn, b, get(), bound, x.X, false) {
 					hits = append(hits, Finding{fn, instrPos(in), "slice(" + descValue(x.X, 0) + "," + descValue(bound, 0) + ")",
 						fmt.Sprintf("%s slices %s with %s %s that no dominating comparison with len(%s) justifies: the expression panics or reads beyond the given slice (spare capacity) for some input length", funcKey(fn), descValue(x.X, 0), what, descValue(bound, 0), descValue(x.X, 0))})
@@ -647,6 +653,12 @@ func unguardedAccesses(p *Program, fn *ssa.Function) (sites int, hits []Finding)
 				}
 				if lenLowerBound(get(), x.X) >= n {
 					continue
+				}
+				// s[a:][:k] with k >= n: exactly k elements (its own bound was checked above)
+				if sl, ok := x.X.(*ssa.Slice); ok && sl.Low == nil && sl.High != nil {
+					if k, ok := constInt(sl.High); ok && k >= n {
+						continue
+					}
 				}
 				hits = append(hits, Finding{fn, instrPos(in), "array-conversion(" + descValue(x.X, 0) + ")",
 					fmt.Sprintf("%s converts %s to *[%d]T without a dominating guard len >= %d: the conversion panics for shorter inputs", funcKey(fn), descValue(x.X, 0), n, n)})
@@ -704,4 +716,16 @@ func mulConst(v ssa.Value) (ssa.Value, int64, bool) {
 		return m.Y, k, true
 	}
 	return nil, 0, false
+}
+
+// provesSumLE: a + n <= len(s), decided by the prover on the synthetic sum (the prover looks at the
+// structure of the bound only).
+func provesSumLE(fn *ssa.Function, at *ssa.BasicBlock, guards []Atom, a, n ssa.Value, s ssa.Value) (ok bool) {
+	defer func() {
+		if recover() != nil {
+			ok = false
+		}
+	}()
+	sum := &ssa.BinOp{Op: token.ADD, X: a, Y: n}
+	return provesLE(fn, at, guards, sum, s, false)
 }
